@@ -153,6 +153,18 @@ func validatorProbes(r *resolved.Schema) []any {
 		mk(all, all, all, ast.NodeTypeIs{Left: pvar, EntityType: et})
 		mk(all, all, all, ast.NodeTypeHasTag{BinaryNode: bin(v(uid), v(types.String("t")))}, ast.NodeTypeGetTag{BinaryNode: bin(v(uid), v(types.String("t")))})
 		if e, ok := r.Entities[et]; ok {
+			// nested access through every request variable (whatever its declared type): var.attr.sub for the record-typed
+			// attributes of this entity type -- also exercises the messages built from access paths
+			for attr, at := range e.Shape {
+				if rt, isRec := at.Type.(resolved.RecordType); isRec {
+					for sub := range rt {
+						for _, vn := range []types.String{"principal", "resource", "action", "context"} {
+							inner := ast.NodeTypeAccess{StrOpNode: ast.StrOpNode{Arg: ast.NodeTypeVariable{Name: vn}, Value: attr}}
+							mk(all, all, all, ast.NodeTypeEquals{BinaryNode: bin(ast.NodeTypeAccess{StrOpNode: ast.StrOpNode{Arg: inner, Value: sub}}, v(types.Long(1)))})
+						}
+					}
+				}
+			}
 			for attr := range e.Shape {
 				acc := ast.NodeTypeAccess{StrOpNode: ast.StrOpNode{Arg: v(uid), Value: attr}}
 				mk(ast.ScopeTypeIs{Type: et}, all, all, ast.NodeTypeHas{StrOpNode: ast.StrOpNode{Arg: pvar, Value: attr}},
